@@ -28,6 +28,8 @@ def gen(tier, seed):
             continue
         if tier == "quick" and rnd.random() < (0.5 if v["kind"] == "uniform" else 0.2):
             continue
+        if tier != "quick" and rnd.random() < 0.6:
+            continue              # a 40% sample of the exhaustive shape family (the whole family needs over an hour)
         ks = distinct(U)
         a, b = ks[0], ks[-1]
         inner = ks[1:-1]
